@@ -900,7 +900,13 @@ func runFullQueue(id int, variant string, flood int) (okRun bool) {
 		}
 	}
 	full := desc + " => " + strings.Join(rs, ", ")
-	hv.Emit(hv.Case{Class: "full-sender-queue", Desc: full, Spec: v.ok, Sig: v.sig, What: v.what, NT: qn == qcap, Key: full,
+	fn, coq := "", ""
+	if variant == "blocked" && qn == qcap && okRun {
+		// the model's history: queue full behind a blocked write, Close, forced close, drain
+		st1, _, sig1 := ctube.VerifShutdownState()
+		fn, coq = "c16_fullq_ok", hv.Tuple(hv.Ni(qcap), hv.Ni(qn), hv.Bools([]bool{rc.ok, rstop.ok, st1 == 7, sig1}))
+	}
+	hv.Emit(hv.Case{Fn: fn, Coq: coq, Class: "full-sender-queue", Desc: full, Spec: v.ok, Sig: v.sig, What: v.what, NT: qn == qcap, Key: full,
 		Replay: map[string]interface{}{"scenario": desc, "results": rs, "parked_goroutines": blocked}})
 	hv.Flush()
 	return okRun
